@@ -134,9 +134,9 @@ func mkCart(v int) *Cart {
 	case 3:
 		c.First = mkItem(0)
 		c.Items = []*Item{mkItem(0)}
-		// every entry of one Go map gets the same value: iteration order cannot
-		// change the sequence of shim operations (DESIGN 2.6)
-		c.ByKey = map[string]*Item{"a": mkItem(2), "b": mkItem(2)}
+		// map iteration order is a decision of the simulator (simsync.MapRange),
+		// so entries may differ; clause order is compared as a multiset
+		c.ByKey = map[string]*Item{"a": mkItem(2), "b": mkItem(1), "c": mkItem(0)}
 	case 4:
 		c.First = mkItem(2)
 		c.Items = []*Item{mkItem(0)}
